@@ -63,6 +63,8 @@ pub enum Cmd {
     ProbeBang { id: u32, var: u32 },
     /// `s<id>=$(echo OUT; BODY)`
     CmdSubst { id: u32, out: &'static str, body: Box<Cmd> },
+    /// `{ echo 'BODY' >/tmp/dotID; . /tmp/dotID; }` : BODY is read and run by the dot built-in
+    Dot { id: u32, body: Box<Cmd> },
     /// `pvar kID s<var_id>`
     ProbeS { id: u32, var_id: u32 },
     /// `set -o pipefail` / `set +o pipefail`
@@ -499,6 +501,11 @@ impl Sh {
                 self.errexit_check()
             }
             Cmd::Brace(c) => self.run(c, ev),
+            Cmd::Dot { body, .. } => {
+                // the `echo` that writes the file succeeds
+                self.status = 0;
+                self.run(body, ev)
+            }
             Cmd::Subshell(c) => {
                 let mut child = self.clone();
                 child.in_subshell = true;
@@ -807,7 +814,7 @@ pub fn first_id(c: &Cmd) -> Option<u32> {
         Cmd::For { body, .. } => first_id(body),
         Cmd::Seq(cs) | Cmd::Pipe(cs) => cs.iter().find_map(first_id),
         Cmd::AndOr(a, rest) => first_id(a).or_else(|| rest.iter().find_map(|(_, c)| first_id(c))),
-        Cmd::Not(c) | Cmd::Brace(c) | Cmd::Subshell(c) | Cmd::FuncDef(_, c) => first_id(c),
+        Cmd::Not(c) | Cmd::Brace(c) | Cmd::Subshell(c) | Cmd::FuncDef(_, c) | Cmd::Dot { body: c, .. } => first_id(c),
         Cmd::If(arms, els) => arms
             .iter()
             .find_map(|(c, b)| first_id(c).or_else(|| first_id(b)))
@@ -983,6 +990,10 @@ impl Render<'_> {
                 s
             }
             Cmd::Brace(c) => format!("{{ {}{}}}", self.list(c), self.term()),
+            Cmd::Dot { id, body } => {
+                let text = self.list(body).replace('\'', "'\\''");
+                format!("{{ echo '{text}' >/tmp/dot{id}; . /tmp/dot{id}; }}")
+            }
             Cmd::Subshell(c) => {
                 let inner = self.list(c);
                 // `((` would be taken for an arithmetic command by some shells: keep a space
@@ -1302,6 +1313,18 @@ impl<'a> Gen<'a> {
                 }
                 Cmd::Pipe(stages)
             }
+            4 if self.cfg.errors && self.rng.chance(50) => {
+                // a file run by the dot built-in: plain commands and shell errors, no break/continue/return
+                let id = self.id();
+                let inner = Cx {
+                    loops: 0,
+                    in_func: false,
+                    ..d
+                };
+                let n = self.rng.range(1, 3);
+                let body = Cmd::Seq((0..n).map(|_| self.leaf(inner)).collect());
+                Cmd::Dot { id, body: Box::new(body) }
+            }
             4 => Cmd::Brace(Box::new(self.list(d, 3))),
             5 | 6 => Cmd::Subshell(Box::new(self.list(sub, 3))),
             7 | 8 => {
@@ -1400,6 +1423,7 @@ pub fn nesting_paths(c: &Cmd, path: &mut Vec<&'static str>, out: &mut Vec<String
         Cmd::Not(_) => Some("!"),
         Cmd::Pipe(_) => Some("pipe"),
         Cmd::Brace(_) => Some("{}"),
+        Cmd::Dot { .. } => Some("."),
         Cmd::Subshell(_) => Some("()"),
         Cmd::If(..) => Some("if"),
         Cmd::Loop { until, .. } => Some(if *until { "until" } else { "while" }),
@@ -1419,7 +1443,7 @@ pub fn nesting_paths(c: &Cmd, path: &mut Vec<&'static str>, out: &mut Vec<String
             nesting_paths(a, path, out);
             rest.iter().for_each(|(_, c)| nesting_paths(c, path, out));
         }
-        Cmd::Not(c) | Cmd::Brace(c) | Cmd::Subshell(c) | Cmd::FuncDef(_, c) => nesting_paths(c, path, out),
+        Cmd::Not(c) | Cmd::Brace(c) | Cmd::Subshell(c) | Cmd::FuncDef(_, c) | Cmd::Dot { body: c, .. } => nesting_paths(c, path, out),
         Cmd::Async { body, .. } | Cmd::CmdSubst { body, .. } => nesting_paths(body, path, out),
         Cmd::If(arms, els) => {
             for (a, b) in arms {
